@@ -127,7 +127,7 @@ def case_stream(c):
 
 
 def case_chunks(c, data):
-    pts = sorted(set(x for x in c['cuts'] if 0 < x < len(data)))
+    pts = sorted(set(x for x in list(c['cuts']) + [c.get('init', 0)] if 0 < x < len(data)))
     out, prev = [], 0
     for p in pts + [len(data)]:
         out.append(data[prev:p])
@@ -140,12 +140,13 @@ def case_ops(c):
     data, _, _ = case_stream(c)
     chunks, _ = case_chunks(c, data)
     ops = []
+    init = 0 < c.get('init', 0) <= len(data)     # the first chunk is handed to the constructor (client.py: response body)
     for i in range(len(chunks) + 1):
         for a in c['app']:
-            if min(a[0], len(chunks)) == i:
+            if max(min(a[0], len(chunks)), 1 if init else 0) == i:
                 ops.append(('send', a[2], spec_bytes(a[3])) if a[1] == 'send' else ('close',))
         if i < len(chunks):
-            ops.append(('recv', chunks[i]))
+            ops.append(('init' if init and i == 0 else 'recv', chunks[i]))
     return ops
 
 
@@ -277,7 +278,7 @@ class C17(Prop):
     id = 'C17'
     props_file = 'Props/C17.v'
     imports = ['Model.WebSocket', 'Model.WebSocketObs']
-    quick_n = 420
+    quick_n = 330
     thorough_n = 6000
     rule = ('frame streams built by the harness\' own RFC 6455 encoder from 1-5 items (text/binary messages of length '
             '0..70001 around 125/126/65535/65536 and the 4096-byte read size, 1-4 fragments, ping/pong between fragments, '
@@ -300,9 +301,9 @@ class C17(Prop):
     # ---- generator
     def _payload(self, rng, text, tier, allow_big=True):
         r = rng.random()
-        if allow_big and r < (0.025 if tier == 'quick' else 0.04):
+        if allow_big and r < (0.015 if tier == 'quick' else 0.04):
             n = rng.choice(BIG)
-        elif allow_big and r < 0.09:
+        elif allow_big and r < 0.07:
             n = rng.choice(MID)
         elif r < 0.6:
             n = rng.choice(LENS)
@@ -393,6 +394,8 @@ class C17(Prop):
             c['app'].sort(key=lambda a: a[0])
         nkeys = 2 * (sum(1 for f in fr if f[1] == 9) + napp) + 2
         c['keys'] = [self._key(rng, True) for _ in range(nkeys)] if mode == 'client' else []
+        if rng.random() < 0.12 and L:
+            c['init'] = rng.choice([L, ends[0], rng.randint(1, L), rng.randint(1, min(L, 15))])
         c['_cm'] = cm
         return c
 
@@ -414,6 +417,8 @@ class C17(Prop):
         st['kinds'][c['k']] = st['kinds'].get(c['k'], 0) + 1
         if c['k'] != 'ws':
             return
+        if c.get('init'):
+            st['constructor_data'] = st.get('constructor_data', 0) + 1
         cm = c.get('_cm', '?')
         st['cut_modes'][cm] = st['cut_modes'].get(cm, 0) + 1
         data, fr, ends = case_stream(c)
@@ -443,12 +448,19 @@ class C17(Prop):
             p = Parent()
             App(p).register(p)
             p.cur = {'d': [], 'w': [], 'c': 0}
-            codec = WebSocketCodec(sock, channel='ws').register(p)
-            drain(p)
+            ops = case_ops(c)
+            if ops and ops[0][0] == 'init':
+                codec = WebSocketCodec(sock, data=ops[0][1], channel='ws').register(p)
+            else:
+                codec = WebSocketCodec(sock, channel='ws').register(p)
+                drain(p)
             outs = []
-            for op in case_ops(c):
-                p.cur = {'d': [], 'w': [], 'c': 0}
-                if op[0] == 'recv':
+            for op in ops:
+                if op[0] != 'init':
+                    p.cur = {'d': [], 'w': [], 'c': 0}
+                if op[0] == 'init':
+                    pass
+                elif op[0] == 'recv':
                     p.fire(read(op[1]) if client else read(sock, op[1]), 'parent')
                     if not client and len(op[1]) % 3 == 0:
                         # a read for another connection of the same server must not reach this codec
@@ -482,16 +494,26 @@ class C17(Prop):
         if c['k'] == 'rfc':
             key = 'None' if c['key'] is None else '(Some (%d, %d, %d, %d)%%N)' % tuple(c['key'])
             return 'obs_rfc %s %d%%N %s %s' % ('true' if c['fin'] else 'false', c['op'], key, coq_bytes(spec_bytes(c['p'])))
-        ops = []
+        groups, single = [], []      # runs of one-byte reads are written  map (fun b => Recv [b]) bytes
+
+        def flush_single():
+            if single:
+                groups.append('map (fun b => Recv [b]) %s' % nlist(single))
+                del single[:]
         for op in case_ops(c):
-            if op[0] == 'recv':
-                ops.append('Recv %s' % coq_bytes(op[1]))
+            if op[0] in ('recv', 'init') and len(op[1]) == 1:
+                single.append(op[1][0])
+                continue
+            flush_single()
+            if op[0] in ('recv', 'init'):      # (repaired code: constructor data is decoded at registration, like a read)
+                groups.append('[Recv %s]' % coq_bytes(op[1]))
             elif op[0] == 'send':
-                ops.append('Send %s %s' % ('true' if op[1] else 'false', coq_bytes(op[2])))
+                groups.append('[Send %s %s]' % ('true' if op[1] else 'false', coq_bytes(op[2])))
             else:
-                ops.append('Close')
+                groups.append('[Close]')
+        flush_single()
         keys = '[%s]' % '; '.join(nlist(k) for k in c['keys'])
-        return 'obs_ws %s %s [%s]' % ('true' if c['mode'] == 'client' else 'false', keys, '; '.join(ops))
+        return 'obs_ws %s %s (%s)' % ('true' if c['mode'] == 'client' else 'false', keys, ' ++ '.join(groups) if groups else '[]')
 
     def obs_for_model(self, c, obs):
         if isinstance(obs, dict) and '__crash__' in obs:
@@ -535,7 +557,7 @@ class C17(Prop):
             return [i for i, b in enumerate(bounds) if off <= b][0]
         t, recv_i, local_close_t, peer_close_t, t_of_chunk = 0, 0, None, None, {}
         for k, op in enumerate(ops):
-            if op[0] == 'recv':
+            if op[0] in ('recv', 'init'):
                 t_of_chunk[recv_i] = k
                 recv_i += 1
         if close_at is not None:
@@ -612,7 +634,7 @@ class C17(Prop):
 
 # smaller shards than the framework default: the cases files evaluate in parallel
 _orig_mismatches = common.coq_mismatches
-common.coq_mismatches = lambda pid, imports, pairs, shard=60: _orig_mismatches(pid, imports, pairs, shard=shard)
+common.coq_mismatches = lambda pid, imports, pairs, shard=42: _orig_mismatches(pid, imports, pairs, shard=shard)
 
 
 if __name__ == '__main__':
